@@ -210,6 +210,59 @@ func check18(c *c18Case, n int) string {
 	return ""
 }
 
+// interleave18 alternates draws from a (a tensor with an odd number of elements where possible) and b, and tests the
+// first and the last element of b's tensors against b's distribution.
+func interleave18(a, b *c18Case, rounds int) string {
+	p1, p2 := b.P1.Eval(nil, 1).V, b.P2.Eval(nil, 1).V
+	var mu, sd float64
+	if b.Dist == "uniform" {
+		mu, sd = (p1+p2)/2, (p2-p1)/math.Sqrt(12)
+	} else {
+		mu, sd = p1, p2
+	}
+	ac := *a
+	ac.Dims = []int{3}
+	var first, last []float64
+	for r := 0; r < rounds; r++ {
+		if _, err := ac.draw(); err != nil {
+			return ""
+		}
+		t, err := b.draw()
+		if err != nil {
+			return ""
+		}
+		_, flat, err := bind.Read(t)
+		if err != nil || len(flat) == 0 {
+			return ""
+		}
+		first = append(first, flat[0])
+		last = append(last, flat[len(flat)-1])
+	}
+	for name, xs := range map[string][]float64{"first": first, "last": last} {
+		N := float64(len(xs))
+		var m float64
+		for _, v := range xs {
+			if b.Dist == "uniform" && !(v >= p1 && v < p2) {
+				return fmt.Sprintf("the %s element %v lies outside [%v, %v) when the call follows a differently configured generator", name, v, p1, p2)
+			}
+			m += v
+		}
+		m /= N
+		var s2 float64
+		for _, v := range xs {
+			s2 += (v - m) * (v - m)
+		}
+		s2 /= N - 1
+		if math.Abs(m-mu) > 8*sd/math.Sqrt(N) {
+			return fmt.Sprintf("mean of the %s element over %d alternated calls is %v, specified %v (8-sigma band %v)", name, len(xs), m, mu, 8*sd/math.Sqrt(N))
+		}
+		if math.Abs(s2-sd*sd) > 8*sd*sd*math.Sqrt(3/N) {
+			return fmt.Sprintf("variance of the %s element over %d alternated calls is %v, specified %v", name, len(xs), s2, sd*sd)
+		}
+	}
+	return ""
+}
+
 func init() {
 	register("C18", "exploration", func(c *run.Ctx) error {
 		c.Rule = "TLC enumerates (initializer or random constructor, configuration incl. nil-config defaults, shape) and emits the result's shape, tracking and the distribution of its elements with parameters as terms (sqrt(6/fanIn), sqrt(6/(fanIn+fanOut)), sqrt(2/fanIn), sqrt(2/(fanIn+fanOut)), configured bounds / mean / sigma); per case the harness makes repeated calls (about N draws in total), checks shape, tracked-leaf-ness and support on every element exactly, and the distributional half statistically with 8-sigma bands: sample mean, sample variance, coverage of the support (uniform), mass within one sigma (normal), freshness across calls, lag-1..3 autocorrelation, position-vs-value correlation; distinct = distinct (kind, configuration, shape)"
@@ -223,10 +276,15 @@ func init() {
 			n = 1000000
 		}
 		k := 0
+		var all18 []*c18Case
 		err = run.ReadLines(files, func(line []byte) error {
 			var cs c18Case
 			if err := json.Unmarshal(line, &cs); err != nil {
 				return run.Brokenf("case: %v", err)
+			}
+			{
+				cp := cs
+				all18 = append(all18, &cp)
 			}
 			d := check18(&cs, n)
 			if d != "" {
@@ -248,6 +306,31 @@ func init() {
 			return err
 		}
 		c.AddExtra("draws_per_case", n)
+		// calls in any order: alternate two differently configured generators and test the first and the last element
+		// of the second one's tensors (state carried from one call into the next would show there)
+		rounds := 3000
+		if c.Thorough {
+			rounds = 40000
+		}
+		pairs := 0
+		for i := 0; i+1 < len(all18); i++ {
+			a, b := all18[i], all18[(i+7)%len(all18)]
+			if a.Dist == "const" || b.Dist == "const" || (a.Kind == b.Kind && a.P1.Eval(nil, 1).V == b.P1.Eval(nil, 1).V && a.P2.Eval(nil, 1).V == b.P2.Eval(nil, 1).V) {
+				continue
+			}
+			if fmt.Sprint(a.Dims) == "[]" || bind.Prod(b.Dims) > 8 {
+				continue
+			}
+			d := interleave18(a, b, rounds)
+			if d != "" {
+				if d2 := interleave18(a, b, 2*rounds); d2 != "" {
+					c.Violate(fmt.Sprintf("%s %v after %s: %s", b.Kind, b.Dims, a.Kind, d2), map[string]any{"c18_interleave": []*c18Case{a, b}, "detail": d2, "rounds": 2 * rounds})
+				}
+			}
+			pairs++
+			c.Count(fmt.Sprintf("interleave-%d", i), true)
+		}
+		c.AddExtra("interleaved_pairs", fmt.Sprintf("%d ordered pairs of differently configured generators alternated %d times", pairs, rounds))
 		return nil
 	})
 	replayers["C18"] = func(path string, w json.RawMessage) int {
